@@ -13,7 +13,11 @@ type Model struct {
 	Lib     []LibEntry `json:"libdefaults,omitempty"`
 	Realms  []Realm    `json:"realms,omitempty"`
 	Domains []Mapping  `json:"domain_realm,omitempty"`
-	Other   []Section  `json:"other,omitempty"`
+	// DomainSplit k (0 < k < len(Domains)) lays [domain_realm] out in two occurrences: the first k mappings where the
+	// section stands in Order, the others in a second [domain_realm] section at the end of the file (a site part and
+	// local additions). A repeated section continues the earlier one.
+	DomainSplit int       `json:"domain_split,omitempty"`
+	Other       []Section `json:"other,omitempty"`
 }
 
 // LibEntry is one relation of [libdefaults]. Text is the value exactly as written; the remaining
